@@ -211,6 +211,11 @@ def gen(rng, tier):
         cs.append(Case("generichash %d - %s" % (outlen, hx(rbytes(rng, 5))), cls="generichash/bad-outlen", expect="err"))
     for kl in list(range(1, 16)) + [65, 66, 100]:             # rejected key lengths
         cs.append(Case("generichash 32 %s %s" % (hx(rbytes(rng, kl)), hx(rbytes(rng, 5))), cls="generichash/bad-keylen", expect="err"))
+    # ---------------- the default-parameter object forms of the generic hash with a key in a variable-length container (whole key used)
+    for klen in (16, 20, 31, 33, 48, 64):
+        for n in (0, 1, 129):
+            msg = rbytes(rng, n)
+            cs.append(Case("generichash_obj 32 %s %s %s" % (hx(rbytes(rng, klen)), hx(msg[:n // 2]), hx(msg[n // 2:])), cls="generichash_obj/vec-key"))
     # ---------------- HSalsa20 / HChaCha20
     for i in range(200 if tier == "quick" else 3000):
         k, inp = rbytes(rng, 32), rbytes(rng, 16)
